@@ -19,10 +19,10 @@ const natsPkg = "github.com/nats-io/nats.go"
 func init() {
 	register(&Property{ID: "C14", Level: "other", Run: runC14,
 		Technique: "static analysis: inter-procedural taint from nats.Msg.Data + difference-constraint bounds prover over dominating length guards (go/ssa); writer/reader table agreement",
-		LevelText: "Decoder totality decided structurally for all paths: every index/slice/fixed-width read on bytes that derive from a NATS message is proven in bounds from the length guards that dominate it; no explicit panic in the envelope decoders; each envelope type has exactly one writer and one reader that agree on constant and message type; the checksum branch cannot return success without CRC equality; raw payloads are stored verbatim. Protobuf's own decoder and semantic validity of decoded values are not decided.",
+		LevelText: "Decoder totality decided structurally for all paths: every index/slice/fixed-width read on bytes that derive from a NATS message is proven in bounds from the length guards that dominate it; no explicit panic in the envelope decoders; each envelope type has exactly one writer and one reader that agree on constant and message type; the checksum branch cannot return success without CRC equality; raw payloads are stored verbatim. Protobuf's own decoder and semantic validity of decoded values are not decided. No panic that a sender can bring about remains in a NATS callback or in the functions that marshal an ack; the malformed-message-set error reaches the handler's identity test unwrapped.",
 		LevelNote: "Trusted: go/ssa, the taint closure (does not follow heap fields), github.com/golang/protobuf Unmarshal being total, the prover's arithmetic (difference constraints over dominating branch conditions; integer overflow not modelled).",
 		DesignRef: "DESIGN.md §4 C14",
-		Explanation: "R14.1 bounds on untrusted bytes (taint closure from nats.Msg.Data, all module functions reached), R14.2 marshal/unmarshal table agreement per msgType and header layout agreement, R14.3 CRC guard, R14.4 raw passthrough / envelope copy in natsToProtoMessage, R14.5 optional sub-messages of propagated requests are nil-checked before dereference. " +
+		Explanation: "R14.1 bounds on untrusted bytes (taint closure from nats.Msg.Data, all module functions reached), R14.2 marshal/unmarshal table agreement per msgType and header layout agreement, R14.3 CRC guard, R14.4 raw passthrough / envelope copy in natsToProtoMessage, R14.5 optional sub-messages of propagated requests are nil-checked before dereference. R14.5 also covers messages nested in an optional sub-message; R14.6 the malformed-message-set sentinel arrives unwrapped at handleReplicationResponse's identity test; R14.7 every panic in a NATS callback or ack-marshalling function is one of six listed ones that a sender cannot cause." +
 			"NOT decided: protobuf decoding itself, semantic validity of decoded values, resource exhaustion, round-trip equality as a value property.",
 	})
 }
